@@ -34,11 +34,29 @@ def cpu_sets():
     return sets
 
 
+GENS = os.path.join(vf.COQ, 'Gen', 'GenSyncSites.v')
+
+
+def regen_sync(ctx):
+    """re-list the synchronisation operations of the package; write Gen only when changed"""
+    tmp = os.path.join(ctx.out, 'GenSyncSites.v')
+    rc, out = vf.sh([os.path.join(vf.BIN, 'c20'), '-extract-sync', vf.REPO, '-gen', tmp], timeout=120)
+    if rc != 0:
+        ctx.broken.append('listing the synchronisation operations of the package failed: ' + out[-400:])
+        return
+    new = open(tmp).read()
+    old = open(GENS).read() if os.path.exists(GENS) else None
+    if new != old:
+        open(GENS, 'w').write(new)
+        ctx.notes.append('coq/Gen/GenSyncSites.v regenerated (content changed)')
+
+
 def run(ctx):
     ok, log = vf.build_harness(ctx, ['c20'])
     if not ok:
         ctx.broken.append('harness does not build against the repository (are repo_patches/proc applied?): ' + log[-600:])
         vf.finish(ctx, 'proof', [])
+    regen_sync(ctx)
     exe = os.path.join(vf.BIN, 'c20')
     thorough = ctx.thorough()
     # start the real runs first (they mostly sleep), prove meanwhile
@@ -61,6 +79,11 @@ def run(ctx):
                              '-out', pout, '-tier', ctx.tier], stdout=subprocess.PIPE, stderr=subprocess.STDOUT, text=True)
 
     nthm, ndis, _ = vf.check_props(ctx)
+    if 'SyncSites' in (getattr(ctx, 'coq_log', '') or ''):
+        exp = [l.strip().rstrip(';') for l in open(os.path.join(vf.COQ, 'Proc', 'SyncSites.v')).read().split('\n') if l.strip().startswith('("')]
+        now = [l.strip().rstrip(';') for l in open(GENS).read().split('\n') if l.strip().startswith('("')]
+        ctx.broken.append('coq/Proc/SyncSites.v: the synchronisation operations of the source are no longer the ones the transition system was written from; added: %s; removed: %s'
+                          % ([x for x in now if x not in exp][:4], [x for x in exp if x not in now][:4]))
     gate = vf.grep_gate()
     if gate:
         ctx.broken.append('forbidden constructs in coq/: ' + '; '.join(gate[:5]))
